@@ -188,9 +188,9 @@ func (e *Engine) instrMods(in ssa.Instruction, ms *ModSet, inLoop map[*ssa.Basic
 	case *ssa.Go:
 		// spawned goroutine: its effects are outside sequential reasoning (noted in evidence)
 	case *ssa.Call:
-		e.callMods(x.Common(), ms)
+		e.callMods(x.Common(), ms, inLoop)
 	case *ssa.Defer:
-		e.callMods(x.Common(), ms)
+		e.callMods(x.Common(), ms, inLoop)
 	}
 }
 
@@ -202,7 +202,7 @@ func sortIsInt(t types.Type) (string, bool) {
 	return "", false
 }
 
-func (e *Engine) callMods(c *ssa.CallCommon, ms *ModSet) {
+func (e *Engine) callMods(c *ssa.CallCommon, ms *ModSet, inLoop map[*ssa.BasicBlock]bool) {
 	if c.IsInvoke() {
 		if em := e.extInvoke(c); em != nil {
 			em.mods(ms, c)
@@ -230,7 +230,31 @@ func (e *Engine) callMods(c *ssa.CallCommon, ms *ModSet) {
 		}
 	case *ssa.Function:
 		if em := e.extModel(f); em != nil {
-			em.mods(ms, c)
+			if em.targets == nil {
+				em.mods(ms, c)
+				return
+			}
+			// the model says through which pointers it writes: writes through locally allocated objects are fresh for callers
+			tmp := newModSet()
+			em.mods(tmp, c)
+			allAlloc := true
+			for _, t := range em.targets(c) {
+				root, direct := storeRoot(t)
+				al, isAlloc := root.(*ssa.Alloc)
+				if !direct || !isAlloc || inLoop != nil && !inLoop[al.Block()] {
+					allAlloc = false
+				}
+			}
+			for _, ki := range tmp.Keys {
+				if ki.Ghost == "" && ki.Dims == 1 && ki.Map == nil {
+					ki.FreshOnly = allAlloc
+				}
+				ms.add(ki)
+			}
+			if tmp.All {
+				ms.All = true
+				ms.Why = append(ms.Why, tmp.Why...)
+			}
 			return
 		}
 		ms.union(e.modSetOf(f))
